@@ -175,6 +175,8 @@ def rewrite_all_references(
     all_known = set(known_components).union(looped_ids)
     _ = FlowIR.discover_reference_strings(value, owner_component_stage, all_known, out_map)
 
+    rewrites = {}
+
     for match in out_map:
         rewrite = rewrite_reference(out_map[match], binding_values, import_to_stage, owner_component_stage)
 
@@ -198,12 +200,17 @@ def rewrite_all_references(
                     match, rewrite, value
                 ))
 
-        pattern = r'\b' + re.escape(match) + r'\b'
+        rewrites[match] = rewrite
+
+    if rewrites:
+        # VV: substitute in ONE pass over the original text (longest spelling first) so that text which was just
+        # inserted (e.g. stage1.0#work:output) is never searched again for a shorter spelling (work:output)
+        pattern = r'\b(' + '|'.join(re.escape(m) for m in sorted(rewrites, key=len, reverse=True)) + r')\b'
 
         try:
-            value = re.sub(pattern, rewrite, value, 1)
+            value = re.sub(pattern, lambda m: rewrites[m.group(1)], value)
         except Exception:
-            flowirLogger.critical("Failed to res.sub(\"%s\", \"%s\", \"%s\"" % (pattern, rewrite, value))
+            flowirLogger.critical("Failed to res.sub(\"%s\", %s, \"%s\"" % (pattern, rewrites, value))
             raise
 
     return value
